@@ -31,6 +31,12 @@ class TConst(T):
         self.v = v
 
 
+class TInt(T):
+    """A small unsigned counter (16-bit slot)."""
+    def __init__(self):
+        pass
+
+
 class TStruct(T):
     def __init__(self, ty, fields):
         self.ty, self.fields = ty, fields
@@ -81,8 +87,10 @@ def from_value(v):
         return TBool()
     if _const_like(v):
         return TConst(v)
+    if is_sym(v) and z3.is_bv(v):
+        return TInt()
     if is_sym(v):
-        raise Unsupported('symbolic non-boolean leaf in coroutine state')
+        raise Unsupported('symbolic non-boolean, non-bitvector leaf in coroutine state')
     if isinstance(v, RStruct):
         return TStruct(v.ty, {k: from_value(x) for k, x in v.fields.items()})
     if isinstance(v, REnum):
@@ -145,11 +153,13 @@ def widen(t, v, dry=False):
         if dry:
             return t, True
         return TUnion(t.alts + [from_value(v)]), True
+    if isinstance(t, TConst) and isinstance(t.v, int) and not isinstance(t.v, bool) and is_intish(v) and not _compatible(t, v):
+        return TInt(), True
     if not _compatible(t, v):
         if dry:
             return t, True
         return TUnion([t, from_value(v)]), True
-    if isinstance(t, TBool):
+    if isinstance(t, (TBool, TInt)):
         return t, False
     if isinstance(t, TConst):
         return t, False
@@ -286,6 +296,8 @@ def _compatible(t, v):
     """Same outer shape (so that widening can proceed structurally)."""
     if isinstance(t, TBool):
         return is_boolish(v)
+    if isinstance(t, TInt):
+        return is_intish(v)
     if isinstance(t, TConst):
         if is_boolish(v):
             return False
@@ -335,6 +347,8 @@ class Inst:
     def _inst2(self, t, p):
         if isinstance(t, TBool):
             return self._slot(p)
+        if isinstance(t, TInt):
+            return self._slot(p, 'bv', 16)
         if isinstance(t, TConst):
             return t.v
         if isinstance(t, TStruct):
@@ -398,6 +412,8 @@ class Inst:
             raise NeedWiden(p, 'shape %r not covered' % (shape_sig(v),))
         if isinstance(t, TBool):
             out[p] = v
+        elif isinstance(t, TInt):
+            out[p] = zint(v, 16)
         elif isinstance(t, TConst):
             pass
         elif isinstance(t, TStruct):
@@ -492,6 +508,8 @@ def describe(t, indent=0):
     """Human-readable dump of a template (for evidence)."""
     if isinstance(t, TBool):
         return 'bool'
+    if isinstance(t, TInt):
+        return 'u16'
     if isinstance(t, TConst):
         r = repr(t.v)
         return 'const' if len(r) > 40 else r
